@@ -2,6 +2,7 @@ package util
 
 import (
 	"errors"
+	"fmt"
 	"log"
 	"os"
 	"path/filepath"
@@ -86,7 +87,7 @@ func SplitCommandWithParse(cmd string) (cmdx string, args []string) {
 	parser.ParseBacktick = true
 	parser.ParseEnv = false
 
-	args, err := parser.Parse(escapeReplacer.Replace(splits[1]))
+	args, err := parseArgs(parser, escapeReplacer.Replace(splits[1]))
 	if err != nil {
 		log.Printf("failed to parse arguments: %s", err)
 		// if parse shell world error use all string as argument
@@ -99,6 +100,18 @@ func SplitCommandWithParse(cmd string) (cmdx string, args []string) {
 	}
 
 	return cmdx, ret
+}
+
+// parseArgs runs the parser; a panic inside it (go-shellwords v1.0.12 slices
+// out of range on e.g. `"a b" $(echo x)`) is reported as a parse error instead
+// of taking the process down.
+func parseArgs(parser *shellwords.Parser, line string) (args []string, err error) {
+	defer func() {
+		if r := recover(); r != nil {
+			args, err = nil, fmt.Errorf("argument parser failed: %v", r)
+		}
+	}()
+	return parser.Parse(line)
 }
 
 // SplitCommand splits command string to program and arguments.
